@@ -175,6 +175,6 @@ def execute(cases_, tier, seed):
     res.bound = "tier=%s: all ordered pairs of %d fragments%s" % (tier, len(FRAGS),
                                                                   "" if tier == "quick" else " (as definition and as member) + all ordered triples of %d" % len(TRIPLE))
     res.assumptions = ["fragments hitting merge's documented unimplemented!() (two different numeric/string validations) are not in the menu"]
-    if len(cases_) > 20 and (n_cand < 500 or outcomes.get("ok", 0) < 10):
+    if not res.violations and (len(cases_) > 20 and (n_cand < 500 or outcomes.get("ok", 0) < 10)):   # a subject that breaks everything is reported through its violations, not as vacuity
         raise MachineryError("vacuity guard: candidates=%d ok=%d" % (n_cand, outcomes.get("ok", 0)))
     return res
